@@ -446,8 +446,21 @@ func init() {
 	// ---- go/ast.Inspect: runs the callback; its only effects are the callback's ----
 	reg("go/ast.Inspect", "ast.Inspect(node, f): calls f some number of times (on the nodes of the tree, parents before children); has no effect of its own: exactly the variables and heap fields that f's body (and the local closures it calls) writes may change", func(fv *FuncVerifier, st *State, env *Env, c *CallCtx) []Term {
 		if lit, ok := ast.Unparen(c.call.Args[1]).(*ast.FuncLit); ok {
+			// `lit k invariant I`: established before the walk, kept by every run of the callback (proved on the
+			// literal as a unit), hence true after the walk - however many nodes it visits, in whatever order
+			var invs []*Clause
+			if ord, has := fv.lits[lit]; has && fv.fn.Contr != nil {
+				invs = fv.fn.Contr.Get("invariant", 0, ord)
+				for _, cl := range invs {
+					g := fv.evalClause(st, cl, c.call.Pos(), nil, nil)
+					fv.obligeNamedAt(st, "F", fmt.Sprintf("cbinv[%s%d].entry", litPrefix(ord), cl.Ord), g, c.call.Pos(), "callback invariant holds before the walk: "+cl.Text)
+				}
+			}
 			fv.havocWrites(st, env, lit.Body)
 			fv.nondet = append(fv.nondet, "ast.Inspect callback effects")
+			for _, cl := range invs {
+				st.Assume(fv.evalClause(st, cl, c.call.Pos(), nil, nil))
+			}
 		} else {
 			fv.havocAll(st)
 		}
@@ -641,14 +654,46 @@ func init() {
 		fv.pipelineT(st, t)
 		return nil
 	})
-	reg("errors.As", "errors.As(err, &target): target receives an arbitrary value; deterministic result", func(fv *FuncVerifier, st *State, env *Env, c *CallCtx) []Term {
+	reg("errors.As", "errors.As(err, &target): target receives an arbitrary value; deterministic result. For a go/scanner.ErrorList target (ASSUMED, go/scanner + go/parser): every entry is non-nil, its line number is >= 1 and - when the error comes from the parser.ParseFile call of this function - at most the number of lines (bytes.Split(src, \"\\n\")) of the text that was parsed", func(fv *FuncVerifier, st *State, env *Env, c *CallCtx) []Term {
 		if u, ok := ast.Unparen(c.call.Args[1]).(*ast.UnaryExpr); ok {
 			if t := fv.typeOf(env, u.X); t != nil {
 				nv := fv.fresh("astarget", fv.sortOf(t))
+				if types.TypeString(t, nil) == "go/scanner.ErrorList" && !env.spec {
+					// go/scanner: the entries of an error list are non-nil, their positions are 1-based; an error of
+					// parser.ParseFile lies inside the text that was parsed (at most one line past... no: within its lines)
+					w := fv.w
+					el := T(SRef, "(at_Ref %s i$)", nv.S)
+					facts := []Term{Not(eqT(el, Null))}
+					if sl, ok := t.Underlying().(*types.Slice); ok {
+						if pt, ok := sl.Elem().Underlying().(*types.Pointer); ok {
+							if stt, ok := pt.Elem().Underlying().(*types.Struct); ok {
+								for i := 0; i < stt.NumFields(); i++ {
+									if stt.Field(i).Name() == "Pos" {
+										pos := fv.readField(st, el, fieldKey(sl.Elem(), "Pos"), fv.sortOf(stt.Field(i).Type()))
+										if w.IsStruct(pos.Sort) {
+											line := w.StructGet(pos, "Line")
+											facts = append(facts, Le(IntLit(1), line))
+											if parsed, ok := st.heap["$ghost:parsed"]; ok {
+												lines := fv.uf("bytes_split", w.SeqSort(seqInt), "", parsed, w.StrLit("\n"))
+												facts = append(facts, Le(line, w.SeqLen(lines)))
+											}
+										}
+									}
+								}
+							}
+						}
+					}
+					st.Assume(T(SBool, "(forall ((i$ Int)) (! (=> (and (<= 0 i$) (< i$ (len_Ref %[1]s))) %[2]s) :pattern ((at_Ref %[1]s i$))))", nv.S, And(facts...).S))
+				}
 				fv.assignTo(st, env, u.X, nv, nil)
 			}
 		}
 		return []Term{fv.fresh("asok", SBool)}
+	})
+	reg("bytes.Split", "bytes.Split(s, sep): a deterministic function of (s, sep); for non-empty sep at least one element", func(fv *FuncVerifier, st *State, env *Env, c *CallCtx) []Term {
+		r := fv.uf("bytes_split", fv.w.SeqSort(seqInt), "", c.args[0], c.args[1])
+		st.Assume(Implies(Gt(fv.w.SeqLen(c.args[1]), IntLit(0)), Ge(fv.w.SeqLen(r), IntLit(1))))
+		return []Term{r}
 	})
 	// ---- text/scanner: ghost source (rune sequence) and cursor ----
 	reg("(*text/scanner.Scanner).Init", "Scanner.Init(r): the scanner will deliver the runes of everything r contains ([]rune(content), invalid bytes as U+FFFD); ASSUMES the content does not start with U+FEFF (a leading BOM is skipped by text/scanner: known finding for templates)", func(fv *FuncVerifier, st *State, env *Env, c *CallCtx) []Term {
